@@ -11,7 +11,7 @@ from harness.core import run_tlc, require_clean, MachineryError
 from harness.graph import Graph, Walker, Adapter
 from harness import tracecheck
 
-NAMES = ['A1', 'polyB', 'C', 'dd']
+NAMES = ['polyB', 'A1', 'dd', 'C']
 
 
 def cfg(n, nxt, edge=True):
